@@ -26,11 +26,27 @@ static void gen_interval(Rng& rng, int kind, double& a, double& b)
 		case 3: {	// far from the origin, narrow
 			a = rng.sign() * rng.loguni(1.0, 1e3);
 			b = a + rng.loguni(1e-3, 1.0);
+			if(rng.coin(0.3))
+			{
+				// very far and very narrow: width 1e-12..1e-10 of |a| (still thousands of doubles wide): no relative "are the limits equal?" test may fire
+				a = rng.sign() * rng.loguni(1e6, 1e12);
+				b = a + std::fabs(a) * rng.loguni(1e-12, 1e-10);
+			}
 			break;
 		}
 		case 4: a = -rng.loguni(1e-3, 1e3), b = rng.loguni(1e-3, 1e3); break;
 		default: a = rng.mag(1e-6, 1e6), b = a + std::fabs(a) * rng.loguni(1e-6, 10) + rng.loguni(1e-9, 1); break;
 	}
+}
+
+// An n-point rule has nodes as close as 1.2 (b-a)/n^2 to each other and to the limits: on an interval that is too narrow for its position they cannot
+// be distinct doubles strictly inside it.  Such requests are outside the property ("strictly increasing, strictly inside"): widen until the closest
+// nodes are 64 ulps apart.
+static void make_resolvable(unsigned n, double a, double& b)
+{
+	double need = 64 * ulp(std::max(std::fabs(a), std::fabs(b))) * (double) n * (double) n / 1.2;
+	if(b - a < need)
+		b = a + need;
 }
 
 static void check_rule(Rng& rng, unsigned n, double a, double b, bool reversed)
@@ -184,7 +200,13 @@ static void check_rule(Rng& rng, unsigned n, double a, double b, bool reversed)
 			judge("three-overloads-agree", std::max(std::fabs(v1 - v2), std::fabs(v2 - v3)), 4 * n * EPS * S + 1e-300, [&] { return pj().d("(f,a,b,n)", v1).d("(f,rule)", v2).d("(values,rule)", v3); });
 			// the same with an integrand that no other rule integrates to the same value (neither a polynomial nor odd about the midpoint): an overload that
 			// silently uses another order or other nodes than the rule of order n differs at truncation level (seeded change C12-m4: order 1 replaced by 2)
-			std::function<double(double)> g = [&](double x) { return std::exp(0.7 * (x - m) / h) + f(x); };
+			// ... and whose evaluation itself uses a Gauss-Legendre rule of ANOTHER order (nested quadratures are the library's own idiom in Integrate_2D):
+			// the rule of the outer call must not be disturbed by it
+			unsigned m_inner = (n % 7) + 2 == n ? n + 1 : (n % 7) + 2;
+			std::function<double(double)> g = [&, m_inner](double x) {
+				double inner = Integrate_Gauss_Legendre([](double t) { return 2.0 * t; }, 0.0, 1.0, m_inner);	 // = 1 to rounding
+				return std::exp(0.7 * (x - m) / h) * inner + f(x);
+			};
 			double w1 = Integrate_Gauss_Legendre(g, a1, b1, n), w2 = Integrate_Gauss_Legendre(g, rw);
 			std::vector<double> gv(n);
 			double Sg = 0;
@@ -215,6 +237,7 @@ static void case_order(Rng& rng, uint64_t index, unsigned n)
 	double a, b;
 	int kind = (int) (index % 6);
 	gen_interval(rng, kind, a, b);
+	make_resolvable(n, a, b);
 	bool reversed = (index / 6) % 3 == 2;
 	set_params(J().i("n", n).d("a", a).d("b", b).i("reversed", reversed));
 	hash_param_u(n), hash_param(a), hash_param(b), hash_param_u(reversed);
@@ -255,6 +278,8 @@ static void case_mismatch(Rng& rng, uint64_t index)
 	int delta  = (index % 2) ? 1 : -1;
 	if(n == 1 && delta < 0)
 		delta = 1;
+	if(index % 5 == 4)
+		delta = -(int) n;	// no values at all for a rule of order n
 	set_params(J().i("n", n).i("values", (long long) n + delta));
 	hash_param_u(n), hash_param_u((uint64_t) (delta + 5));
 	mark_nontrivial();
